@@ -40,6 +40,10 @@ def gen_history(rng):
 
     segs = elf_segments(FIXTURE)
     xseg = next(s for s in segs if s[1] <= 0x1100 < s[1] + s[2])          # the segment holding the code
+    thr = {}            # pid -> tids of its non-main threads (a process may be forked by any thread of its parent)
+
+    def forker(pp):
+        return rng.choice([pp] + thr.get(pp, [])) if rng.chance(1, 2) else pp
     addrs = {}          # pid -> interesting addresses (inherited on fork, kept across exec: stale addresses must then stay raw)
     for _ in range(rng.range(6, 60)):
         r = rng.below(100)
@@ -48,7 +52,7 @@ def gen_history(rng):
             next_pid += rng.range(1, 9)
             if live and rng.chance(2, 3):
                 pp = rng.choice(live)
-                recs.append(["fork", pid, pp, tick()])
+                recs.append(["fork", pid, pp, tick(), forker(pp)])
                 addrs[pid] = list(addrs.get(pp, []))
             else:
                 recs.append(["exec", pid, tick()])
@@ -93,10 +97,12 @@ def gen_history(rng):
         elif r < 88 and len(live) > 1:
             # a FORK record naming a pid that is already known (pid reuse without a recorded EXIT): the parent's mappings are adopted again
             pp = rng.choice([x for x in live if x != pid])
-            recs.append(["fork", pid, pp, tick()])
+            recs.append(["fork", pid, pp, tick(), forker(pp)])
             addrs[pid] = list(addrs.get(pid, [])) + list(addrs.get(pp, []))
         elif r < 93:
-            recs.append(["tfork", pid, pid + 1000 + rng.below(5), tick()])
+            nt = pid + 1000 + rng.below(5)
+            recs.append(["tfork", pid, nt, tick()])
+            thr.setdefault(pid, []).append(nt)
         elif r < 97 and len(live) > 1:
             recs.append(["exit", pid, tick()])
             live.remove(pid)
@@ -104,7 +110,7 @@ def gen_history(rng):
             pp = pid
             pid = next_pid
             next_pid += rng.range(1, 9)
-            recs.append(["fork", pid, pp, tick()])
+            recs.append(["fork", pid, pp, tick(), forker(pp)])
             addrs[pid] = list(addrs.get(pp, []))
             live.append(pid)
     # sample times must be strictly increasing per process (exact repeats are C01's business)
@@ -139,7 +145,7 @@ def to_perf(recs):
             out.append(P.comm(r[1], r[1], "p%d" % r[1], r[2], True))
             last = r[2]
         elif k == "fork":
-            out.append(P.fork(r[1], r[2], r[1], r[2], r[3]))
+            out.append(P.fork(r[1], r[2], r[1], r[4] if len(r) > 4 else r[2], r[3]))      # the forking thread need not be the parent's main thread
             last = r[3]
         elif k == "tfork":
             out.append(P.fork(r[1], r[1], r[2], r[1], r[3]))
